@@ -352,8 +352,21 @@ def _as_bool_term(v):
     return builtins.bool(v)
 
 
-def _to_bv(v, dt):
-    """value of integer dtype dt -> z3 BV of dt.bits"""
+def _int_to_bv_try(t, w):
+    """exact conversion of an Int term that is a numeral or an if-then-else tree of numerals; None otherwise"""
+    t = z3.simplify(t)
+    if z3.is_int_value(t):
+        return z3.BitVecVal(t.as_long(), w)
+    if z3.is_app(t) and t.decl().kind() == z3.Z3_OP_ITE:
+        a, b = _int_to_bv_try(t.arg(1), w), _int_to_bv_try(t.arg(2), w)
+        if a is not None and b is not None:
+            return z3.If(t.arg(0), a, b)
+    return None
+
+
+def _to_bv(v, dt, partner=None):
+    """value of integer dtype dt -> z3 BV of dt.bits.  Int-represented values become bit patterns through the uninterpreted
+    bijection (DESIGN 3.3) unless they are small known values or meet genuine bit-vector data (`partner`), where the conversion is exact."""
     E().has_bv = True
     if is_sym(v):
         if z3.is_bv(v):
@@ -361,6 +374,11 @@ def _to_bv(v, dt):
             return v
         if z3.is_bool(v):
             return z3.If(v, z3.BitVecVal(1, dt.bits), z3.BitVecVal(0, dt.bits))
+        ex = _int_to_bv_try(v, dt.bits)
+        if ex is not None:
+            return ex
+        if partner is not None and is_sym(partner) and z3.is_bv(partner) and not _is_bits_term(partner):
+            return z3.Int2BV(v, dt.bits)
         return _bits(v, dt.bits)
     _const_axiom(int(v), dt.bits)
     return z3.BitVecVal(int(v), dt.bits)
@@ -416,6 +434,8 @@ def _bv_to_int(c):
         return c.arg(0)
     if z3.is_app(c) and c.decl().kind() == z3.Z3_OP_ITE:
         return z3.If(c.arg(0), _bv_to_int(c.arg(1)), _bv_to_int(c.arg(2)))
+    if not _contains_bits(c):
+        return z3.BV2Int(c, is_signed=True)      # genuine bit-vector data: exact numeric value (two's complement)
     f, g = _bits_funcs(w)
     E().add(f(g(c)) == c)
     return g(c)
@@ -810,7 +830,7 @@ class ndarray(_OpsMixin):
                         if newc == cells or _py_all(is_sym(c) for c in cells):
                             return ndarray(self._store, self._pos, self.shape, dt, self._contig)
                         return ndarray(_Store(newc), list(range(self.size)), self.shape, dt)  # snapshot (write-through unsupported)
-                newc = [(_bits(c, dt.bits) if (is_sym(c) and z3.is_int(c)) else c if is_sym(c) else _wrap_int(c, dt)) for c in cells]
+                newc = [((_int_to_bv_try(c, dt.bits) if _int_to_bv_try(c, dt.bits) is not None else _bits(c, dt.bits)) if (is_sym(c) and z3.is_int(c)) else c if is_sym(c) else _wrap_int(c, dt)) for c in cells]
                 return ndarray(_Store(newc), list(range(self.size)), self.shape, dt)
             if self.dtype.kind == "b" and dt.kind in "iu":
                 newc = [(z3.If(c, z3.BitVecVal(1, 8), z3.BitVecVal(0, 8)) if is_sym(c) else int(c)) for c in self._cells()]
@@ -1531,7 +1551,7 @@ def _bitop(op, a, b, dt):
             return b
         if not is_sym(b) and b == 0:
             return a
-    a, b = _to_bv(a, dt), _to_bv(b, dt)
+    a, b = _to_bv(a, dt, partner=b), _to_bv(b, dt, partner=a)
     return {"xor": a ^ b, "and": a & b, "or": a | b}[op]
 
 
